@@ -148,6 +148,49 @@ class C12Monitor(Monitor, C12Common):
         if self._applies(w, name):
             self.check_positions(w, "after_trial", self._ctx(w, name))
 
+    RESTART_STEPS = 6
+
+    def on_end(self, w):
+        """Fault 'the process is replaced': the simulation is rebuilt from its own saved state the documented way
+        (to_dict -> JSON -> from_dict -> attach a calculator) and continued; "all histories" includes the ones that go
+        through a restart, and what the user fixed must stay fixed in the continuation.  Judged only where ASE itself
+        can rebuild the constraint from JSON (FixAtoms, FixCom), outside grand-canonical tables (fixed atoms are
+        followed by identity there) and when every move of the table applies constraints.  A rebuild or continuation
+        that raises is not C12's business (C07 / C08 judge it) and is skipped."""
+        sc = w.sc
+        if (w.aborted or sc["driver"] == "GrandCanonical" or not self.kinds or self.kinds == "none"
+                or not set(self.kinds.split("+")) <= {"FixAtoms", "FixCom"} or w.trial == 0):
+            return
+        if not all(self._applies(w, e.get("name", f"m{i}")) for i, e in enumerate(sc["moves"])):
+            return
+        try:
+            from ase.io.jsonio import decode, encode
+            from simkit import calcs
+            from simkit.world import driver_class
+
+            mc2 = driver_class(sc["driver"]).from_dict(decode(encode(w.mc.to_dict())))
+            mc2.atoms.calc = calcs.make_calc(w.calc_spec)
+            a2 = mc2.atoms
+            have = "+".join(sorted({type(c).__name__ for c in a2.constraints})) or "none"
+            fixed0 = a2.positions[self.rows].copy() if self.rows else None
+            com0 = a2.get_center_of_mass()
+            mc2.run(self.RESTART_STEPS)
+        except Exception:  # noqa: BLE001
+            w.result.count("restart_continuation.skipped")
+            return
+        w.result.count("fault.restart_continuation")
+        ctx = f"driver={sc['driver']}|constraints={self.kinds}|at=after_restart"
+        if have != self.kinds:
+            self.violate(w, "constraint_removed_from_atoms", ctx,
+                         f"the user set {self.kinds}; the atoms of the simulation rebuilt from the saved state carry {have}")
+        if self.rows and not np.array_equal(a2.positions[self.rows], fixed0):
+            self.violate(w, "fixed_atom_moved", ctx, f"fixed rows {self.rows} moved by up to "
+                         f"{float(np.max(np.abs(a2.positions[self.rows] - fixed0))):.3e} in the {self.RESTART_STEPS} steps after a restart")
+        if self.has_com and len(a2):
+            d = float(np.max(np.abs(a2.get_center_of_mass() - com0)))
+            if d > 1e-9 * max(1.0, float(np.max(np.abs(a2.positions)))) * (1 + 8 * self.RESTART_STEPS) ** 0.5:
+                self.violate(w, "centre_of_mass_drift", ctx, f"COM moved by {d:.3e} in the {self.RESTART_STEPS} steps after a restart")
+
     def on_momenta_drawn(self, w, ev):
         if not self.has_rot or not len(w.atoms):
             return
@@ -218,7 +261,9 @@ class C12(HistoryCampaign):
             "moves next to exchange moves in grand-canonical tables (FixAtoms, fixed atoms followed by identity), or "
             "force-bias steps (random delta, T, mass powers); fixed rows, centre of mass, angular and linear momentum "
             "are checked at criteria entry and after every trial / step; distinct = (driver, move kind, verdict, "
-            "constraint kinds) tuples; non-trivial = at least one trial or step executed")
+            "constraint kinds) tuples; non-trivial = at least one trial or step executed; at the end of every eligible "
+            "history (FixAtoms / FixCom, no exchange moves) the simulation is rebuilt from to_dict -> JSON -> from_dict "
+            "and continued for 6 steps under the same invariants (counter fault.restart_continuation)")
     assumptions = ["FixRot is only combined with non-periodic clusters (its documented domain)",
                    "moves built with apply_constraints=False are exempt, as the statement says"]
 
